@@ -1079,16 +1079,19 @@ impl C06 {
                 } else {
                     let err = (a_pred(i) - mean).abs();
                     rep.max(if case.f32m { "reg_mean_err_rel_f32" } else { "reg_mean_err_rel_f64" }, err / (yscale + quantum));
-                    // unanimous member trees: the mean of identical values is that value - up to 2 ulp of the element type
-                    // in the normal range (the sum of k copies may round), exactly where the arithmetic is exact (values
-                    // that are small multiples of the smallest subnormal)
+                    // unanimous member trees: the mean of identical values is that value - up to about k ulp of the element type
+                    // in the normal range (the sum of k copies rounds), exactly where the arithmetic is exact (values that are
+                    // small multiples of the smallest subnormal)
                     let first = member[0][i];
                     if first.is_finite() && member.iter().all(|m| m[i].to_bits() == first.to_bits()) {
                         rep.count("steps.unanimous-rows-judged", 1);
                         let ulp = if case.f32m { (first.abs() as f32 * f32::EPSILON) as f64 } else { first.abs() * f64::EPSILON };
                         // (k copies of an integer number of units add up exactly while the total stays below 2^23 / 2^52 units)
                         let exact_regime = first.abs() * (member.len() as f64) < q1 * if case.f32m { 8_388_608.0 } else { 4_503_599_627_370_496.0 };
-                        let allow = if exact_regime { 0.0 } else { 2.0 * ulp };
+                        // (normal range: k sequential additions round at the magnitude of the partial sums, up to k*v, then one
+                        // division: at most about k ulp of v. The first version allowed 2 ulp and raised a false alarm in the
+                        // thorough tier: 24 unanimous trees, forest 4 ulp away.)
+                        let allow = if exact_regime { 0.0 } else { (member.len() as f64 + 2.0) * ulp };
                         if !((a_pred(i) - first).abs() <= allow) {
                             rep.fail("not-mean", "forest-predict-unanimous", format!("{}: all {} member trees predict {:e} for row {:?}, the forest returns {:e}", ctx, member.len(), first, q[i], a_pred(i)));
                             break;
